@@ -74,6 +74,14 @@ def gen(rng: random.Random, tier: str, idx: int) -> dict:
             proc = f"p{i // 2}"
         actors.append({"name": f"a{i}", "proc": proc, "ops": ops})
     setup = [{"kind": "append", "tag": f"s{k}", "n": rng.randint(1, 2)} for k in range(rng.randint(0, 3))]
+    delete_race = (not meta_heavy) and rng.random() < 0.12
+    if delete_race:
+        # several files in ONE manifest (multi-append transaction), every committer deletes a different one of them
+        # (some name two): each loser's retry has to re-apply its delete to the manifest the winner has just rewritten
+        setup = [{"kind": "multi", "tag": "sm", "n": 1, "parts": rng.randint(3, 5)}] + setup[:1]
+        for i, a in enumerate(actors):
+            a["ops"] = [dict({"kind": "delete_file", "tag": f"a{i}.d", "k": i, "slash": rng.random() < 0.7,
+                              "with_append": rng.random() < 0.3}, **({"k2": i + len(actors)} if rng.random() < 0.3 else {}))] + a["ops"][:1]
     if meta_heavy and len(setup) < 2:
         setup += [{"kind": "append", "tag": f"sx{k}", "n": 1} for k in range(2)]
     plan = {"backend": backend, "topology": topo, "clock": clock,
@@ -90,7 +98,7 @@ def gen(rng: random.Random, tier: str, idx: int) -> dict:
         # line-level pre-emption: threads sharing a handle may be switched between ANY two lines of datashard code,
         # not only at storage calls (in-memory state races)
         plan["preempt_p"] = rng.choice([0.002, 0.01, 0.05])
-    if topo == "separate" and rng.random() < 0.3:
+    if topo == "separate" and (rng.random() < 0.3 or delete_race):
         # park one committer right before it takes the commit lock (its base is already read, its manifests written)
         # until another committer has finished an operation: a guaranteed stale base at validation time
         site = {"op": "flock", "cls": "LOCK"} if backend == "local" else {"op": "put", "cls": "LOCK"}
